@@ -268,7 +268,7 @@ def run(tier, seed):
     depth = 5
     if thorough:
         stride = 97
-        env7 = dict(env, RTTE_DEPTH="7", RTTE_WDEPTH="4", RTTE_FULL="0", RTTE_STRIDE=str(stride),
+        env7 = dict(env, RTTE_DEPTH="7", RTTE_WDEPTH="4", RTTE_FULL="0", RTTE_LEAFCUT="1", RTTE_STRIDE=str(stride),
                     RTTE_OFFSET=str(seed % stride))
         res7 = _tlc_model_nocov(env7, "mc_MCRtte_deep", timeout=1500, workers=core.NCPU)
         r.add_model(res7)
@@ -276,6 +276,12 @@ def run(tier, seed):
         cases += [c for c in _cases_of(res7["out"]) if c not in have and not c.startswith("[[0,")]
         res7["out"] = ""
         depth = 7
+        r.notes["deep_instance"] = ("depth 7 from the fresh estimator, 4 from the warmed-up ones, run without -coverage and "
+                                    "with CONSTRAINT LeafCut: the states at the maximal depth are generated and checked "
+                                    "(invariants, step property, case emission) but not fingerprinted, so `states` counts "
+                                    "the interior states only and `transitions` counts every generated state; one leaf "
+                                    f"state in {stride} (by a hash of the estimator state, offset seed mod {stride}) is "
+                                    "emitted as a case")
     r.exhaustive = {"what": f"all sample/timeout sequences to depth {depth} over 12 boundary samples from the fresh "
                             f"estimator (13^{depth} = {13 ** depth} sequences), to depth {4 if thorough else 3} from 3 "
                             "warmed-up estimators; states merged by VIEW (estimator state, depth)",
